@@ -57,7 +57,40 @@ fn differs(ctx: &mut Ctx, case: &str, class: &str, obl: &[&str], a: &St, b: &St,
     ctx.check(case, class, obl, ok, format!("streams_equal={} eq={}", sa == sb, a == b), format!("states differing in {} must feed different streams and compare unequal", what));
 }
 
+/// Crash flags of systems wider than a machine word: with N = 70 and N = 130 actors every single crash flag, and every
+/// pair of different single-crash states, must change the stream and `==` (a packed-word encoding loses the flags of the
+/// actors beyond 64). Shared with the C09 oracle ("each resulting combination of crashed actors is a distinct state").
+pub(crate) fn wide_crash_flags(ctx: &mut Ctx) {
+    for n in [70usize, 130] {
+        let wide = |crashed: Option<usize>| -> St {
+            let mut c = vec![false; n];
+            if let Some(i) = crashed {
+                c[i] = true;
+            }
+            ActorModelState {
+                actor_states: (0..n).map(|_| Arc::new(1u8)).collect(),
+                network: Network::new_unordered_nonduplicating([]),
+                timers_set: (0..n).map(|_| Timers::new()).collect(),
+                random_choices: (0..n).map(|_| RandomChoices::default()).collect(),
+                crashed: c,
+                history: 0,
+            }
+        };
+        let b0 = wide(None);
+        let singles: Vec<Vec<u8>> = (0..n).map(|i| stream(&wide(Some(i)))).collect();
+        for i in 0..n {
+            differs(ctx, &format!("state.crashed-wide:n={}:i={}", n, i), "state-crash-flag-ignored", &["HSH.hash.ensures.feeds-every-field", "HSH.eq.ensures.compares-every-field"], &b0, &wide(Some(i)), "the crash flag of one actor of a wide system");
+            let case = format!("state.crashed-wide-pairs:n={}:i={}", n, i);
+            if ctx.want(&case) {
+                let clash = (0..n).find(|j| *j != i && singles[*j] == singles[i]);
+                ctx.check(&case, "state-crash-flag-ignored", &["HSH.hash.ensures.feeds-every-field"], clash.is_none(), format!("Crash({}) and Crash({:?}) feed the same stream", i, clash), "different crashed actors feed different streams".into());
+            }
+        }
+    }
+}
+
 pub fn run(ctx: &mut Ctx) {
+    wide_crash_flags(ctx);
     // ---- vector clocks: identity up to trailing zeros
     let mut clocks: Vec<Vec<u32>> = vec![vec![]];
     for len in 1..=3usize {
